@@ -15,7 +15,7 @@ func init() {
 		Property: "C16",
 		Explanation: "VSA/SEE rules on plugin.Prefix.lifetimes and plugin.Route.lifetime, per path: R-C16-1 non-deprecated ⇒ the configured constants; deprecated ⇒ with one clock read `now` and T = Epoch.Add(<the like-named configured lifetime>), the result is 0 on paths where now ≥ T (Equal ∨ After / ¬Before) and T.Sub(now) on the complementary paths, same T and same now in test and subtraction " +
 			"(hence result = max(0, T−now): non-negative, zero from the deadline on, non-increasing in now; preferred ≤ valid at every instant because both use one now and T_p ≤ T_v by config); " +
-			"R-C16-2 Epoch is the epoch parameter threaded from config.Parse, which cmd/corerad calls once with time.Now(); nothing else writes Epoch; R-C16-3 the parser rejects deprecated stanzas with an infinite lifetime R-C16-4 the lifetimes stored into the options are the results of lifetime()/lifetimes() on every path of Apply (static and wildcard).",
+			"R-C16-2 Epoch is the epoch parameter threaded from config.Parse, which cmd/corerad calls once with time.Now(); nothing else writes Epoch; R-C16-3 the parser rejects deprecated stanzas with an infinite lifetime R-C16-4 the lifetimes stored into the options are the results of lifetime()/lifetimes() on every path of Apply (static and wildcard); R-C16-5 no module code outside package plugin stores the advertised lifetime fields of prefix and route options.",
 		Assumptions: []string{
 			"Go type checker and go/ssa construction are correct",
 			"time.Time.Equal/After/Before/Sub/Add have their documented meaning; preferred ≤ valid is established by C02",
@@ -191,6 +191,7 @@ func c16Lifetimes(c *Ctx, fn *ssa.Function, fields []string) {
 
 func runC16(c *Ctx) {
 	c16Advertised(c)
+	c16OnlyPluginsWriteLifetimes(c)
 	if f := c.needMethod("R-C16-1", "internal/plugin", "Prefix", "lifetimes"); f != nil {
 		c16Lifetimes(c, f, []string{"ValidLifetime", "PreferredLifetime"})
 	}
@@ -344,4 +345,38 @@ func c16Advertised(c *Ctx) {
 		}
 		c.R.Check(n >= 1, "R-C16-4", fn+":lifetime-stores", fn, c.pos(ap.Pos()), fmt.Sprintf("%d lifetime store(s) on enumerated paths", n), ">= 1", "anchor-missing")
 	}
+}
+
+
+// c16OnlyPluginsWriteLifetimes (R-C16-5): once a plugin has put the advertised
+// lifetimes into its option (R-C16-4) nothing rewrites them: the only module
+// code that stores ValidLifetime/PreferredLifetime of a PrefixInformation or
+// RouteLifetime of a RouteInformation is package plugin. (A later pass over
+// ra.Options, e.g. "withdraw routes while not forwarding", would make the
+// advertised value differ from the remaining time and jump back up later.)
+func c16OnlyPluginsWriteLifetimes(c *Ctx) {
+	n := 0
+	for _, fn := range c.srcFuncs() {
+		for _, b := range fn.Blocks {
+			for _, in := range b.Instrs {
+				st, ok := in.(*ssa.Store)
+				if !ok {
+					continue
+				}
+				fa, ok := st.Addr.(*ssa.FieldAddr)
+				if !ok {
+					continue
+				}
+				pkg, typ, f := an.FieldAddrName(fa)
+				if pkg != PkgNDP || !((typ == "PrefixInformation" && (f == "ValidLifetime" || f == "PreferredLifetime")) || (typ == "RouteInformation" && f == "RouteLifetime")) {
+					continue
+				}
+				n++
+				inPlugin := fn.Pkg != nil && fn.Pkg.Pkg.Path() == PkgPlugin || (fn.Parent() != nil && fn.Parent().Pkg != nil && fn.Parent().Pkg.Pkg.Path() == PkgPlugin)
+				c.R.Check(inPlugin, "R-C16-5", fmt.Sprintf("%s:writes:%s.%s", c.fname(fn), typ, f), c.fname(fn), c.pos(st.Pos()), "written in "+c.fname(fn),
+					"advertised lifetimes are written by the plugin that owns the option and by nothing else", "the lifetime on the wire is not the remaining time computed by the plugin (and may increase again later)")
+			}
+		}
+	}
+	c.R.Check(n >= 3, "R-C16-5", "module:lifetime-writers", "", "", fmt.Sprintf("%d store(s) to advertised lifetime fields", n), ">= 3 (valid, preferred, route)", "anchor-missing")
 }
